@@ -163,6 +163,59 @@ func frontStream(c *Ctx) {
 		}
 		c.Emit(J{"op": "flags.parse", "specs": specs, "argv": argv, "conv": convAll(argv)}, impl, "flags", tag)
 	}
+	// ---- flags.parse, small scope exhaustively (thorough tier): every argument vector of length <= 3 over an alphabet of
+	// spellings, against the flag table of the generated main
+	if c.Tier == "thorough" {
+		alpha := []string{"-v", "-v=false", "-v=x", "--v", "-t", "-t=1s", "-t=", "5s", "x", "--", "-", "-h", "-l", "--l=1", "-zz", "=", "-v="}
+		specs := []J{{"name": "v", "kind": "bool"}, {"name": "l", "kind": "bool"}, {"name": "h", "kind": "bool"}, {"name": "t", "kind": "dur"}}
+		var rec func(prefix []string, depth int)
+		rec = func(prefix []string, depth int) {
+			argv := append([]string{}, prefix...)
+			fs := flag.FlagSet{}
+			fs.SetOutput(&bytes.Buffer{})
+			fs.Usage = func() {}
+			bv, bl, bh := fs.Bool("v", false, ""), fs.Bool("l", false, ""), fs.Bool("h", false, "")
+			dt := fs.Duration("t", 0, "")
+			err := fs.Parse(argv)
+			impl := J{}
+			if err != nil {
+				impl["error"] = errClass(err)
+				impl["msg"] = err.Error()
+			} else {
+				set := [][]string{}
+				seen := map[string]bool{}
+				fs.Visit(func(f *flag.Flag) { seen[f.Name] = true })
+				for _, n := range []string{"v", "l", "h", "t"} {
+					if !seen[n] {
+						continue
+					}
+					switch n {
+					case "v":
+						set = append(set, []string{n, fmt.Sprintf("b:%v", *bv)})
+					case "l":
+						set = append(set, []string{n, fmt.Sprintf("b:%v", *bl)})
+					case "h":
+						set = append(set, []string{n, fmt.Sprintf("b:%v", *bh)})
+					case "t":
+						set = append(set, []string{n, fmt.Sprintf("d:%d", int64(*dt))})
+					}
+				}
+				rest := fs.Args()
+				if rest == nil {
+					rest = []string{}
+				}
+				impl["set"], impl["rest"] = set, rest
+			}
+			c.Emit(J{"op": "flags.parse", "specs": specs, "argv": argv, "conv": convAll(argv)}, impl, "flags-exhaustive", fmt.Sprintf("len=%d", len(argv)))
+			if depth == 0 {
+				return
+			}
+			for _, a := range alpha {
+				rec(append(append([]string{}, prefix...), a), depth-1)
+			}
+		}
+		rec([]string{}, 3)
+	}
 	// ---- front.parse
 	frontNames := []string{"f", "debug", "v", "h", "t", "keep", "d", "w", "gocmd", "goos", "goarch", "ldflags", "l", "version", "init", "clean", "compile"}
 	frontKinds := map[string]string{"f": "bool", "debug": "bool", "v": "bool", "h": "bool", "t": "dur", "keep": "bool", "d": "str", "w": "str", "gocmd": "str", "goos": "str",
@@ -186,6 +239,42 @@ func frontStream(c *Ctx) {
 			}
 		}
 	}()
+	parseOnce := func(argv []string, env [][]string, tags ...string) {
+		var so, se bytes.Buffer
+		inv, cmd, err := mage.Parse(&se, &so, argv)
+		impl := J{}
+		switch {
+		case err == flag.ErrHelp:
+			impl["result"] = "usage"
+		case err != nil:
+			impl["result"] = "misuse"
+		default:
+			args := inv.Args
+			if args == nil {
+				args = []string{}
+			}
+			impl = J{"result": "ok", "cmd": cmd.String(), "debug": inv.Debug, "dir": inv.Dir, "workDir": inv.WorkDir, "force": inv.Force, "verbose": inv.Verbose,
+				"list": inv.List, "help": inv.Help, "keep": inv.Keep, "timeout": fmt.Sprint(int64(inv.Timeout)), "compileOut": inv.CompileOut, "goos": inv.GOOS,
+				"goarch": inv.GOARCH, "ldflags": inv.Ldflags, "args": args, "goCmd": inv.GoCmd, "cacheDir": inv.CacheDir, "hashFast": inv.HashFast}
+		}
+		c.Emit(J{"op": "front.parse", "argv": argv, "env": env, "conv": convAll(argv)}, impl, append([]string{"front", "result=" + fmt.Sprint(impl["result"])}, tags...)...)
+	}
+	// small scope exhaustively (thorough tier): every command line of length <= 2 over an alphabet of the front end's flags
+	if c.Tier == "thorough" {
+		for _, k := range envKeys {
+			os.Unsetenv(k)
+		}
+		os.Setenv("HOME", "/home/u")
+		alpha := []string{"-f", "-debug", "-v", "-h", "-t", "-t=1s", "5s", "-keep", "-d", "dir", "-w", "-gocmd", "go2", "-goos", "plan9", "-goarch", "-ldflags", "-l",
+			"-version", "-init", "-clean", "-compile", "out", "--", "-x", "build", "-v=false", "-h=true", "-clean=false", "-l=0"}
+		parseOnce([]string{}, [][]string{{"HOME", "/home/u"}}, "front-exhaustive")
+		for _, a := range alpha {
+			parseOnce([]string{a}, [][]string{{"HOME", "/home/u"}}, "front-exhaustive")
+			for _, b := range alpha {
+				parseOnce([]string{a, b}, [][]string{{"HOME", "/home/u"}}, "front-exhaustive")
+			}
+		}
+	}
 	for i := 0; i < c.N; i++ {
 		env := [][]string{}
 		for _, k := range envKeys {
